@@ -14920,6 +14920,20 @@ func (l *Lowerer) lowerTextureAtomic(name string, args []parser.Expr, target *[]
 
 // lowerTextureQuery converts a texture query call to IR.
 func (l *Lowerer) lowerTextureQuery(args []parser.Expr, target *[]ir.Statement, query ir.ImageQuery) (ir.ExpressionHandle, error) {
+	switch query.(type) {
+	case ir.ImageQuerySize:
+		if len(args) > 2 {
+			return 0, fmt.Errorf("textureDimensions takes 1 or 2 arguments, got %d", len(args))
+		}
+	case ir.ImageQueryNumLayers:
+		if len(args) != 1 {
+			return 0, fmt.Errorf("textureNumLayers takes 1 argument, got %d", len(args))
+		}
+	default:
+		if len(args) != 1 {
+			return 0, fmt.Errorf("texture query takes 1 argument, got %d", len(args))
+		}
+	}
 	image, err := l.lowerExpression(args[0], target)
 	if err != nil {
 		return 0, err
